@@ -42,7 +42,7 @@ import z3
 from pyvc.contract import Task, VC, Res, FnTask
 from pyvc.emitcheck import EmitTask
 from pyvc import emit, abstract as A, extract
-from pyvc.values import Sym, Ref, HObj, HList, HDict, Exc, Event, State, Unsupported, CheckerError, Closure, sym, fresh, fresh_name
+from pyvc.values import Obj as OBJ_SORT, Sym, Ref, HObj, HList, HDict, Exc, Event, State, Unsupported, CheckerError, Closure, sym, fresh, fresh_name
 from pyvc.interp import Raised
 from pyvc.smt import check_sat, to_term
 from contracts.emit_common import visitors
@@ -490,6 +490,16 @@ class EraseTask(Task):
 def configure_erase(I):
     # children fold or not at the generator's discretion in both modes alike: keep them abstract
     I.specs["_AbsMap.discard"] = lambda I_, st, args, kwargs, node: [(st, None)]
+    import math
+    isfinite_fn = z3.Function("math.isfinite", OBJ_SORT, z3.BoolSort())
+
+    def isfinite(I_, st, args, kwargs, node):
+        a = args[0]
+        if isinstance(a, Sym) and a.k == "obj":
+            return [(st, Sym(isfinite_fn(a.t), "bool"))]
+        return [(st, math.isfinite(a))]
+
+    I.specs[("fn", id(math.isfinite))] = isfinite
 
 
 def name_node(st, path, nm, ctx="param"):
@@ -517,9 +527,10 @@ def erase_tasks():
                         nf = (lambda rec_, t_: (lambda st: {"recursive": rec_, "test": emit.make_node(st, N.Expr, "node.test", kind="expr") if t_ else None}))(rec, has_test)
                         ts.append(EraseTask(nm, mode, wrap, configure=configure_erase, node_fields=nf, buffers=(buf,),
                                             label=f"recursive={rec},test={has_test},buffer={buf}", offset=k * 20000))
-                        # the two slowest configurations (loop filter + buffered frame) run in the thorough tier only; the quick tier
-                        # keeps the same visitor paths with frame.buffer None and the buffered frame without a loop filter
-                        ts[-1].thorough_only = bool(has_test and buf)
+                        # CPU budget of the quick tier: visit_For with a loop filter and/or a buffered frame (6 of the 8 configurations,
+                        # ~200 CPU s) run in the thorough tier only; the quick tier keeps the plain and the recursive loop with
+                        # frame.buffer None, and covers loop filters / buffered loops through C09.emit.erase.source and C09.bounded.render
+                        ts[-1].thorough_only = bool(has_test or buf)
                         k += 1
             continue
         ts.append(EraseTask(nm, "expr" if wrap else mode, wrap, configure=configure_erase))
